@@ -218,6 +218,31 @@ def run(ctx):
                           % (v, t, bytes(s.b).hex(), ref_word(nf, *t).hex()),
                           {'walk': walk[:walk.index(v) + 1][-6:], 'version': v, 'xyz': t},
                           key={'reuse': v, 'xyz': list(t)})
+    # ---- what is handed to the sink is that position's word for good: a sink may keep the chunks it is given (a gather
+    # list, a write queue) and look at them later, after further positions have been encoded
+    class Keep:
+        def __init__(self):
+            self.chunks = []
+
+        def send(self, d):
+            self.chunks.append(d)             # no copy: exactly the object the library passed
+    for v in [x for x in (47, 404, 477, 578, 757) if x in idx]:
+        c = ConnectionContext(protocol_version=v)
+        nf = idx[v] >= idx[477]
+        ts = [(rng.randrange(-2 ** 25, 2 ** 25), rng.randrange(-2 ** 11, 2 ** 11), rng.randrange(-2 ** 25, 2 ** 25)) for _ in range(5)]
+        k = Keep()
+        for t in ts:
+            Position.send_with_context(Position(*t), k, c)
+        ctx.case(('retained-chunks', v, tuple(ts)))
+        got = b''.join(bytes(ch) for ch in k.chunks)
+        want = b''.join(ref_word(nf, *t) for t in ts)
+        if got != want:
+            firstbad = next((i for i in range(len(ts)) if got[8 * i:8 * i + 8] != want[8 * i:8 * i + 8]), None)
+            ctx.violation('five positions encoded one after the other into a sink that keeps the chunks it is given (protocol %d): looked '
+                          'at afterwards, chunk #%r holds %s, the word of position %r is %s'
+                          % (v, firstbad, got[8 * (firstbad or 0):8 * (firstbad or 0) + 8].hex(), ts[firstbad or 0],
+                             want[8 * (firstbad or 0):8 * (firstbad or 0) + 8].hex()),
+                          {'version': v, 'positions': ts}, key={'kind': 'retained-chunks', 'version': v})
     # ---- chunk section positions (22/22/20)
     SX = [-2 ** 21, -2 ** 21 + 1, -1, 0, 1, 2 ** 21 - 1]
     SY = [-2 ** 19, -1, 0, 1, 2 ** 19 - 1]
